@@ -170,6 +170,30 @@ func c14Schemas(thorough bool) (*SPkg, []*Schema) {
 		t.m.Fields = append(t.m.Fields, SField{Name: "svcs", Tag: 9, Kind: "svc", Ref: t.svc, List: true})
 		return nil
 	})
+	// the field-type rules at every site where fields are declared: message fields (above), inline method
+	// arguments and inline method results
+	for _, site := range []string{"arguments", "results"} {
+		site := site
+		for _, ft := range []struct{ name, typ, expect string }{
+			{"service-typed field", "Svc", "reject"}, {"list of services", "[]Svc", "reject"}, {"unknown field type", "Missing", "reject"},
+			{"unknown list element type", "[]Missing", "reject"}, {"list of any", "[]any", "either"}, {"list of untyped message", "[]message", "either"},
+			{"list of lists", "[][]int32", "either"},
+		} {
+			ft := ft
+			mention := "f"
+			if ft.expect == "either" {
+				mention = ""
+			}
+			mut(ft.name+" in inline method "+site, mention, ft.expect, func(t *c14tmpl) []*SPkg {
+				sig := "(q string 1) (f " + ft.typ + " 1)"
+				if site == "arguments" {
+					sig = "(f " + ft.typ + " 1) (r string 1)"
+				}
+				t.svc.Methods = append(t.svc.Methods, SMethod{"inl", sig})
+				return nil
+			})
+		}
+	}
 	mut("list of any", "anys", "either", func(t *c14tmpl) []*SPkg {
 		t.m.Fields = append(t.m.Fields, SField{Name: "anys", Tag: 9, Kind: "any", List: true})
 		return nil
